@@ -96,7 +96,7 @@ pub fn posthoc(pre: &World, post: &World, res: &mut EvalOut) -> PostHoc {
         let cb = post.clean_build();
         for &s in act.iter() {
             if post.kind(s) == Kind::Output {
-                for p in parts_of(post.st[s].parts) {
+                for p in parts_of(post.parts(s)) {
                     let n = part_name(s, p);
                     if post.disk.get(&n) != cb.get(&n) {
                         let jid = post.id(s);
